@@ -69,7 +69,9 @@ public:
   {
     for (DataList *data = head_.get(); data != nullptr; data = data->next_.get())
     {
-      if (key.size() == data->key_length_)
+      // A list built from an empty iterable consists of one placeholder node without a key
+      // (key_ == nullptr): it binds nothing and must not match the empty key.
+      if (data->key_ != nullptr && key.size() == data->key_length_)
       {
         if (std::memcmp(key.data(), data->key_, data->key_length_) == 0)
         {
